@@ -966,9 +966,10 @@ def check_C17(ctx):
             env = {"E1": "1", "EA": "2"}       # the default shown stays the declared one
         # "the help of any command": also when it is printed a second time by the same application. Only for
         # trees whose sub-commands declare nothing: a sub-command's initialiser runs again at every Run and
-        # would declare its variables twice (outside every property: C20 speaks of rebuilt applications)
+        # would declare its variables -- and its own sub-commands, which then appear twice in its help -- a second time
+        # (Q10, outside every property: C20 speaks of rebuilt applications)
         def bare(c):
-            return all(not s["decls"] and bare(s) for s in c["subs"])
+            return all(not s["decls"] and not s["subs"] for s in c["subs"])
         cases.append({"op": "run", "env": env, "version": None, "root": root, "argv": path + [rng.choice(["-h", "--help"])],
                       "repeat": 2 if bare(root) and rng.random() < 0.5 else 1})
         meta.append((cmds, True))
